@@ -615,6 +615,8 @@ func c11(r *core.Run) {
 	}
 
 	c11ReadErrorAborts(r, "E3")
+	r.Rule("E4", "one codec for writing and reading (badgerstore): the binary codec calls - MarshalBinary where a value is written, UnmarshalBinary where it is read - stand under the same stored flag conditions; a writer that decides by the value's dynamic type while the reader follows the flag fixed in SetType writes a marshaler-only type in binary and reads it back as JSON", 2)
+	c11CodecAgreement(r, "E4", "store/badgerstore")
 	c11DuplicateDecidedByRawRead(r, "E1")
 	// ---- E3 (badgerstore) ----------------------------------------------------
 	// BadgerDB's Delete / Set succeed on a missing key: the not-found answer of Update / Delete comes
@@ -1817,5 +1819,55 @@ func c11DuplicateDecidedByRawRead(r *core.Run, rule string) {
 	}
 	if nDup == 0 {
 		r.Bad(rule, core.FuncName(m), "duplicate-decided-by-Txn.Get", p.Pos(m.Pos()), "Create never returns the duplicate sentinel")
+	}
+}
+
+// c11CodecAgreement is C11.E4: what is written with one codec is read with the
+// same one. The binary codec calls of the store (MarshalBinary on the write
+// side, UnmarshalBinary on the read side) are guarded by the same stored
+// flags; where the writer decides by the value's dynamic type and the reader
+// by the flag fixed in SetType, a type that implements only the marshaler is
+// written in binary and read back as JSON: Value and Exists fail right after a
+// successful Create, in the same transaction and in later ones.
+func c11CodecAgreement(r *core.Run, rule, rel string) {
+	p := r.P
+	type site struct {
+		c     ssa.CallInstruction
+		kind  string
+		guard string
+	}
+	var sites []site
+	for _, fn := range p.FuncsOfPkg(rel) {
+		for _, c := range core.Calls(fn) {
+			if !c.Common().IsInvoke() {
+				continue
+			}
+			n := c.Common().Method.Name()
+			if n != "MarshalBinary" && n != "UnmarshalBinary" {
+				continue
+			}
+			var gs []string
+			for _, ed := range ctxEdges(p, c, core.Outermost(fn), 0) {
+				ci := core.Cond(ed.If.Cond)
+				if ci.Kind == "boolfield" && ci.HasFld {
+					gs = append(gs, describeCond(ed))
+				}
+			}
+			sort.Strings(gs)
+			sites = append(sites, site{c, n, strings.Join(gs, " && ")})
+		}
+	}
+	if len(sites) == 0 {
+		r.OKTrivial(rule, rel, "binary-codec-guards-agree", "-", "the store has no binary codec")
+		return
+	}
+	ref := ""
+	for _, s := range sites {
+		if s.kind == "UnmarshalBinary" {
+			ref = s.guard
+		}
+	}
+	for _, s := range sites {
+		r.Check(s.guard == ref, rule, core.FuncName(s.c.Parent()), "binary-codec-guard("+s.kind+")=reader's", p.InstrPos(s.c), "guarded by ["+s.guard+"] like the reader", "the binary codec is chosen under ["+s.guard+"] here but under ["+ref+"] on the read side: a value type for which the two differ (a BinaryMarshaler without BinaryUnmarshaler) is written in one encoding and read in the other - Value and Exists fail right after a successful Create")
 	}
 }
